@@ -182,6 +182,9 @@ func (g *goCompiler) compileSpec(sf *SpecFunc) {
 		return
 	}
 	g.specs[sf.Name] = true
+	saveR, saveO := g.results, g.oldMode
+	g.results, g.oldMode = nil, false
+	defer func() { g.results, g.oldMode = saveR, saveO }()
 	var ps []string
 	for _, p := range sf.Params {
 		ps = append(ps, p.Name+" "+p.Typ)
@@ -382,6 +385,7 @@ func tryReplay(o *Obligation, prog *Program, b *strings.Builder) {
 	src, why := buildReplayTest(o, prog)
 	if src == "" {
 		fmt.Fprintf(b, "replay: not available: %s\n", why)
+		witnessSearch(o, prog, b)
 		return
 	}
 	dir := filepath.Join(verifDir, "replay", firstProp(o))
@@ -393,9 +397,29 @@ func tryReplay(o *Obligation, prog *Program, b *strings.Builder) {
 	if failed {
 		o.replayed = true
 		fmt.Fprintf(b, "replay result: the real function violates the contract on this input\n%s\n", out)
-	} else {
-		fmt.Fprintf(b, "replay result: not reproduced on the real code with the solver's inputs\n%s\n", trimOutN(out, 3000))
+		return
 	}
+	fmt.Fprintf(b, "replay result: not reproduced on the real code with the solver's inputs\n%s\n", trimOutN(out, 3000))
+	witnessSearch(o, prog, b)
+}
+
+func witnessSearch(o *Obligation, prog *Program, b *strings.Builder) {
+	e := o.enc
+	src, why := buildSearchTest(o, prog)
+	if src == "" {
+		fmt.Fprintf(b, "witness search: not available: %s\n", why)
+		return
+	}
+	dir := filepath.Join(verifDir, "replay", firstProp(o))
+	tf := filepath.Join(dir, sanitizeFile(o.Name)+"_search_test.go.txt")
+	os.WriteFile(tf, []byte(src), 0o644)
+	out, failed := runReplayTest(e.fn.Pkg.Pkg.Path(), tf)
+	if failed {
+		o.replayed = true
+		fmt.Fprintf(b, "witness search: %s\nreplay command: govc replay %s %s\nwitness search result: the real function violates the contract\n%s\n", tf, e.fn.Pkg.Pkg.Path(), tf, trimOutN(out, 3000))
+		return
+	}
+	fmt.Fprintf(b, "witness search: no failing input found in the explored scope\n%s\n", trimOutN(out, 2000))
 }
 
 func firstProp(o *Obligation) string {
